@@ -19,6 +19,7 @@ import (
 )
 
 func init() {
+	verifrt.Register("H_C17_Retry", H_C17_Retry)
 	verifrt.Register("H_C02_Finish", H_C02_Finish)
 	verifrt.Register("H_C02_Validate", H_C02_Validate)
 	verifrt.Register("H_C07_Recover", H_C07_Recover)
@@ -391,7 +392,7 @@ func H_C17_Scan(v *verifrt.T) {
 	v.Assume(size2 >= 1)
 	v.Assume(size2 <= 4096)
 	t1 := v.Now().Add(-2 * time.Hour)
-	dt := v.Duration("mtime-step", 0, time.Hour)
+	dt := v.Duration("mtime-step", -time.Hour, time.Hour) // the new version may carry an older time (mv, cp -p, rsync -t)
 	t2 := t1.Add(dt)
 	h1 := v.Version("v1", size1)
 	h2 := v.Version("v2", size2)
@@ -442,5 +443,58 @@ func H_C17_Scan(v *verifrt.T) {
 	} else {
 		v.Reach("not-requeued")
 		v.Assert(verifrt.Not(changed), "C17.O4 a changed file is queued again")
+	}
+}
+
+// C17 / C01: the real startRetry goroutine for a file whose validation failed:
+// if the file changed on disk in the meantime it is dropped from the retry
+// (the next scan hashes and sends the new version) — what is queued is never a
+// mixture of the old size and the new content; an unchanged file is hashed
+// again and queued whole.
+func H_C17_Retry(v *verifrt.T) {
+	size1, size2 := v.Int64("size1"), v.Int64("size2")
+	v.Assume(size1 >= 1)
+	v.Assume(size1 <= 4096)
+	v.Assume(size2 >= 1)
+	v.Assume(size2 <= 4096)
+	t1 := v.Now().Add(-2 * time.Hour)
+	dt := v.Duration("mtime-step", -time.Hour, time.Hour)
+	h1 := v.Version("v1", size1)
+	h2 := v.Version("v2", size2)
+	root := v.TempRoot()
+	os.MkdirAll(filepath.Join(root, "cache"), 0o755)
+	c, _ := cache.NewJSON(filepath.Join(root, "cache"), "/out", "k")
+	src := &vSource{v: v, files: map[string]*vSrcFile{"a": {name: "a", size: size1, time: t1, tag: "v1"}}, order: []string{"a"}}
+	want := h1
+	c.Add(&hashFile{File: src.files["a"], hash: h1})
+	rewritten := v.Choose("file-rewritten-before-the-failed-answer", 2) == 1
+	if rewritten {
+		src.files["a"] = &vSrcFile{name: "a", size: size2, time: t1.Add(dt), tag: "v2"}
+		want = h2 // same size and time, other bytes: the retry hashes what is there now
+	}
+	changed := verifrt.And(rewritten, verifrt.Or(size2 != size1, dt != 0))
+	broker := &Broker{
+		Conf:      &Conf{Name: "v", Cache: c, Store: src, Tagger: func(string) string { return "t" }},
+		tagMap:    map[string]*FileTag{"t": {Name: "t"}},
+		chRetry:   make(chan sts.Polled, 1),
+		chScanned: make(chan []sts.Hashed, 2),
+	}
+	broker.chRetry <- &vPolled{name: "a", code: sts.ConfirmFailed, prev: "p"}
+	close(broker.chRetry)
+	var wg sync.WaitGroup
+	wg.Add(1)
+	go broker.startRetry(&wg)
+	wg.Wait()
+	if len(broker.chScanned) == 1 {
+		v.Reach("requeued")
+		v.Assert(verifrt.Not(changed), "C17 a file that changed since it was sent is not re-queued by the retry (never a mixture of versions)")
+		q := <-broker.chScanned
+		v.Assert(len(q) == 1 && q[0].GetName() == "a" && q[0].GetSize() == size1 && q[0].GetHash() == want, "C17 an unchanged file is hashed again and re-queued whole")
+		if r, ok := q[0].(*recoverFile); ok {
+			v.Assert(r.GetPrev() == "p", "C04 the retried file keeps its predecessor")
+		}
+	} else {
+		v.Reach("dropped")
+		v.Assert(changed, "C03/C17 an unchanged file whose validation failed is sent again")
 	}
 }
